@@ -436,6 +436,9 @@ class NM(NumericDataType):
         elif value is not None and not isinstance(value, Decimal):
             raise ValueError('Invalid value for a NM data')
         super(NM, self).__init__(value, 16, validation_level)
+        # the length is the one of the plain decimal notation (str() of a small Decimal is shorter: 1E-18)
+        if Validator.is_strict(self.validation_level) and len(self.to_er7()) > self.max_length:
+            raise MaxLengthReached(value, self.max_length)
 
     def to_er7(self, encoding_chars=None):
         # plain decimal notation: str(Decimal('0.0000001')) would give '1E-7', which is not an HL7 number
